@@ -13,7 +13,7 @@ TECHNIQUE = 'bounded exhaustive enumeration of shapes x edge assignments and of 
 
 EDGES = ['HD', 'NK', '--']
 DECOR = [lambda s: s, lambda s: s.upper(), lambda s: s.upper() + '-SBJ-1', lambda s: s.capitalize() + '=2',
-         lambda s: s.upper() + "-HD'"]
+         lambda s: s.upper() + "-HD'", lambda s: s.upper() + '=2-14']
 
 
 def rule_items():
